@@ -329,6 +329,22 @@ func runBinary[E any](t *T, s *scheme[E], row brow[E], variant string, a *rlwe.C
 			break
 		}
 	}
+	// ---- history: output object that held a degree-2 top-level value and was then shrunk in place to the
+	// shape a fresh output (resp. the accumulator) has: its slices keep the old content in their capacity
+	{
+		t.distinct(api, "hist-shrunk", b.kind, variant, true)
+		a2, b2 := copyCt(a), b.mk()
+		model := freshOut(b2)
+		o2 := s.dirty(rnd, 2)
+		o2.Resize(model.Degree(), model.Level())
+		o2.Copy(model)
+		o := protect(func() error { return row.call(s.newEval(), a2, b2, o2) })
+		if o.panicked {
+			t.c.Violate("C09|"+api+"|history-shrunk-out|panic", fmt.Sprintf("%s [%s]: panic when the output object was shrunk in place from a degree-2 top-level value: %v at %s", desc("hist-shrunk"), t.tag, o.pval, o.stack), nil)
+		} else if o.err == nil {
+			t.same(api, "history-shrunk-out", "", desc("hist-shrunk"), r0, canonCt(s.rq, o2))
+		}
+	}
 }
 
 type urow[E any] struct {
